@@ -720,6 +720,24 @@ func (vc *VC) loopEnv(li *loopInfo, st *State, phiVal func(*ssa.Phi) Term) *Env 
 			}
 		}
 	}
+	// $kN: the number of completed iterations of the enclosing (or earlier) range loop N over a slice: in
+	// the body of loop N the element being processed is the one at index $kN
+	for _, lj := range vc.loops {
+		if lj == li {
+			continue
+		}
+		for _, in := range lj.header.Instrs {
+			phi, ok := in.(*ssa.Phi)
+			if !ok {
+				break
+			}
+			if phi.Comment == "rangeindex" {
+				if t, ok := vc.vals[phi]; ok {
+					e.vars[fmt.Sprintf("$k%d", lj.ordinal)] = Term{S: sx("+", t.S, "1"), Sort: "Int", T: types.Typ[types.Int]}
+				}
+			}
+		}
+	}
 	// $visited: the keys already produced by the map iteration this loop drives; $key, $val: the entry
 	// the current iteration works on (available once the loop's Next has run: iteration clauses, and
 	// the clauses of loops nested inside).  $visitedK, $keyK, $valK: the same for loop K.
